@@ -2,7 +2,17 @@
 """Regenerates /verif/MANIFEST.json from checks.d/*.json (+ properties.jsonl for the not_applicable remainder)."""
 import json, os
 V = os.path.dirname(os.path.dirname(os.path.abspath(__file__)))
-reg = {fn[:-5]: json.load(open(os.path.join(V, "checks.d", fn))) for fn in sorted(os.listdir(os.path.join(V, "checks.d"))) if fn.endswith(".json") and not fn.startswith("_")}
+wip = set(open(os.path.join(V, "checks.d", "_wip.txt")).read().split()) if os.path.exists(os.path.join(V, "checks.d", "_wip.txt")) else set()
+reg = {}
+for fn in sorted(os.listdir(os.path.join(V, "checks.d"))):
+    if fn.endswith(".json") and not fn.startswith("_"):
+        spec = json.load(open(os.path.join(V, "checks.d", fn)))
+        base = json.load(open(os.path.join(V, "checks.d", "_%s.json" % spec["base"]))) if "base" in spec else {}
+        files = base.get("files", []) + spec.get("files", [])
+        if fn[:-5] in wip:
+            continue
+        if all(os.path.exists(os.path.join(V, f)) for f in files) and "run" in spec and "level" in spec:
+            reg[fn[:-5]] = dict(base, **spec)
 props = [json.loads(l) for l in open(os.path.join(V, "properties.jsonl"))]
 na_reasons = json.load(open(os.path.join(V, "not_applicable.json"))) if os.path.exists(os.path.join(V, "not_applicable.json")) else {}
 checks = []
@@ -25,7 +35,7 @@ for p in props:
 na = []
 for p in props:
     if p["id"] not in reg:
-        na.append({"property_id": p["id"], "reason": na_reasons.get(p["id"], "no check registered in this revision of /verif (planned, see DESIGN.md section 4); nothing is claimed for it")})
+        na.append({"property_id": p["id"], "reason": na_reasons.get(p["id"], "check still under construction in this revision of /verif (plan: DESIGN.md section 4); nothing is claimed for it yet")})
 m = {
     "version": 1,
     "setup_cmd": "bin/vcheck build",
